@@ -4,16 +4,19 @@
    is section R below: proved for EVERY parse / join result (C03_parse_reachability; file scheme included), for
    the records of the file-path constructors and along ALL 19 mutators outside a computable exclusion
    (C03_reachability over reach03a, section R2; C03_accessors_reach is the property text's first two sentences
-   for every such record).  C03_reachability_full_statement (C02's Reachable: joins against ANY reached base,
-   the exclusions being exactly C02's known_step) is not proved: what separates it from C03_reachability is
-   listed in front of it.  Section V: the remaining "views agree" clauses. *)
+   for every such record).  Sections R4 / R5: base_ok, auth_end_ok and "no default port stored" are invariants
+   (inv03), so joins need no premise and the exclusions are exactly the known classes; for C02's own quantifier
+   Reachable3 (known_step2 on the call, query_pairs_mut sessions) every record satisfies wf_b /\ host_text_ok
+   (C03_reachability_full, C03_accessors_reachable).  The first formulation C03_reachability_full_statement
+   (HostWf alone) is refuted.  Section V: the remaining "views agree" clauses. *)
 From Coq Require Import String.
 From RU Require Import Base.Prelude Base.Utf8 Model.HostT Model.UrlRecord Model.Parser Model.Setters Model.WF
   Proofs.ListN Proofs.C03_WF Proofs.C06_Suffix Proofs.C06_HostNone Proofs.C06_Host Proofs.C06_Segments Proofs.C06_Path
   Proofs.C06_Main Proofs.C02_Reach Proofs.C02_AuthParts Proofs.C02_AuthMain Proofs.C04_ParseTotal
   Proofs.C03_ReachParts Proofs.C03_Reach Proofs.C03_ReachFile Proofs.C03_ReachHost Proofs.C03_ReachHist
   Model.FilePath Proofs.C06_Path Proofs.C06_Host Proofs.C05_Enc Proofs.C03_ReachAll Proofs.C03_Reachability
-  Proofs.C03_ReachAscii Proofs.C03_ReachEx Proofs.C03_Views Proofs.C03_PortInv Proofs.C03_PortParse Proofs.C03_AuthEnd Proofs.C03_ReachKnown.
+  Proofs.C03_ReachAscii Proofs.C03_ReachEx Proofs.C03_Views Proofs.C03_PortInv Proofs.C03_PortParse Proofs.C03_AuthEnd Proofs.C03_ReachKnown
+  Proofs.C05_AuthOfs Proofs.C02_Hist Proofs.C02_SetHostCanon Proofs.C02_Reach3 Proofs.C03_ParseFront Proofs.C03_ReachJoin Proofs.C03_ReachFull Proofs.C03_ReachFullEx Proofs.C03_ReachModel.
 Open Scope string_scope.
 Open Scope N_scope.
 Open Scope list_scope.
@@ -356,17 +359,212 @@ Example C03_reachability_known_inhabited :
   /\ reach03k_example_stmt.
 Proof. split; [exact ex3_hyps | exact reach03k_example]. Qed.
 
-(* what separates C03_reachability from "every reachable Url" in the sense of C02 (Reachable: parse, join
-   against ANY reached base, all 19 mutators outside C02's known_step):
-   (1) base_ok of a reached base is a premise of reach03a's join (special => not cannot-be-a-base);
-   (2) auth_end_b u is part of excl03 for set_path / quirks set_pathname;
-   (3) the host half of excl03 is stated on the result (hosti u' = None) while Known_F_C02_4 is stated on the
-       argument (an empty text): for abstract host functions they differ;
-   (4) for path_segments_mut sessions on an authority-less record excl03 has path_bad, known_step only the marker.
-   (2) is discharged for histories without joins and file: texts (C03_reachability_known); (1) and the parser
-   half of (2) for join / file: results need an inversion of Parser::parse_url beyond wf_b. *)
+(* ---------- R4. joins and file: texts; the parser's invariants beyond wf_b ---------- *)
+(* inv03 u (Proofs/C03_ParseFront.v) = (wf_b u /\ host_text_ok u) /\ AS u /\ PN u /\ HE u:
+     AS (C05_AuthOfs): a special scheme is followed by "://" - hence base_ok: the record is a possible base;
+     PN: the stored port is not the default port of the stored scheme;
+     HE: with a special scheme the host text does not end in '/', a special scheme other than file has a host -
+         hence auth_end_ok.
+   EVERY record Parser::parse_url returns satisfies inv03 - any input, any encoding override, both builds, the file
+   scheme included - from a base that satisfies inv03 (no premise without a base).  Hypothesis: HostWf only. *)
+Theorem C03_parse_invariants : forall dbg hp hpo hd ovr base input u, HostWf hp hpo hd ->
+  match base with Some b => inv03 b | None => True end ->
+  parse_url dbg hp hpo hd ovr base input = POk u -> inv03 u.
+Proof. exact parse_url_inv03. Qed.
+Check C03_parse_invariants : forall dbg hp hpo hd ovr base input u, HostWf hp hpo hd ->
+  match base with Some b => (wf_b b = true /\ host_text_ok b) /\ AS b /\ PN b /\ HE b | None => True end ->
+  parse_url dbg hp hpo hd ovr base input = POk u -> (wf_b u = true /\ host_text_ok u) /\ AS u /\ PN u /\ HE u.
+Print Assumptions C03_parse_invariants.
+
+(* one call of any of the 19 mutators outside the KNOWN classes only (known03k: the call changed the record and
+   lies in excl03k = excl03 without the auth_end_b member) keeps inv03 *)
+Theorem C03_invariants_step : forall dbg hp hpo hd u o u', HostWf hp hpo hd -> NoEmpty hp -> IpWf hd ->
+  inv03 u -> op_args_ok o -> known03k u o u' = false -> apply_op dbg hp hpo hd u o = Some u' -> inv03 u'.
+Proof. intros dbg hp hpo hd u o u' HW HNE HIP. exact (inv03_step dbg hp hpo hd HW HNE HIP u o u'). Qed.
+Check C03_invariants_step : forall dbg hp hpo hd u o u', HostWf hp hpo hd -> NoEmpty hp -> IpWf hd ->
+  inv03 u -> op_args_ok o -> known03k u o u' = false -> apply_op dbg hp hpo hd u o = Some u' -> inv03 u'.
+Print Assumptions C03_invariants_step.
+
+(* reach03j dbg hp hpo hd (Proofs/C03_ReachJoin.v): Parser::parse_url without a base (ANY text, file: included),
+   against ANY reached record (no base_ok premise), Url::from_file_path / from_directory_path, and any sequence of
+   calls of the 19 mutators with known03k = false.  It contains reach03k and is contained in reach03a: the two
+   premises of reach03a that are not known findings - base_ok of a base, auth_end_b of a receiver - are invariants. *)
+Theorem C03_reachability_joins : forall dbg hp hpo hd, HostWf hp hpo hd -> NoEmpty hp -> IpWf hd ->
+  forall u, reach03j dbg hp hpo hd u ->
+  (wf_b u = true /\ host_text_ok u) /\ base_ok u = true /\ auth_end_ok u /\ PN u /\ reach03a dbg hp hpo hd u.
+Proof.
+  intros dbg hp hpo hd HW HNE HIP u R. destruct (reach03j_inv dbg hp hpo hd HW HNE HIP u R) as (K & A & P & E).
+  split; [exact K|]. split; [exact (as_base_ok u (proj1 K) A)|]. split; [exact (he_auth_end u K E)|].
+  split; [exact P | exact (reach03j_a dbg hp hpo hd HW HNE HIP u R)].
+Qed.
+Check C03_reachability_joins : forall dbg hp hpo hd, HostWf hp hpo hd -> NoEmpty hp -> IpWf hd ->
+  forall u, reach03j dbg hp hpo hd u ->
+  (wf_b u = true /\ host_text_ok u) /\ base_ok u = true /\ auth_end_ok u /\ PN u /\ reach03a dbg hp hpo hd u.
+Print Assumptions C03_reachability_joins.
+
+(* non-vacuity: parse "file://h/a/b", join "../c?q", set_path "x/../y", join "http://g:80/z" (80 is dropped),
+   join "//k:81" -> "http://k:81/" *)
+Example C03_reachability_joins_inhabited :
+  (HostWf ex_hp3 ex_hp ex_hd2 /\ NoEmpty ex_hp3 /\ IpWf ex_hd2) /\ reach03j_example_stmt.
+Proof.
+  destruct ex3_hyps as ((HRT & _) & HNE & HIP).
+  split; [split; [exact (HostRT_HostWf _ _ _ HRT) | split; assumption] | exact reach03j_example].
+Qed.
+
+(* ---------- R5. C02's quantifier ---------- *)
+(* Reachable3 dbg hp hpo hd (Proofs/C02_Reach3.v): parse and join of &str texts (against ANY reached record), every
+   call of the 19 mutators outside C02's known_step2 (= F-C03-5, F-C02-3, F-C02-2, F-C02-8, F-C02-4, F-C02-9),
+   Url::query_pairs_mut sessions; results in the drive-letter class are not continued.
+   known_step2 and excl03k differ in ONE class: a path_segments_mut session on an authority-less record without the
+   "/." marker whose result starts with "//" (in excl03k, not in known_step2).  SessNoSS dbg (Proofs/C03_ReachFull.v)
+   says there is no such session on a record of a non-special scheme; it is a hypothesis of the two partial theorems
+   and is proved in Proofs/C03_SessNoSS.v (C03_sessions_no_2slash), which gives C03_reachability_full.  The host half
+   of excl03k (an empty host in front of a stored port) is refused by quirks::set_host / set_hostname themselves and
+   cannot come out of Url::set_host with a non-empty argument or set_ip_host (host_nonempty of C02: Host::parse never
+   returns the empty host, Host::parse_opaque only for the empty text); is_cbb = is_opaque_b; F-C02-8 = path_bad
+   without marker; query_pairs_mut keeps inv03.  HostOK / IpOKv of C05 (the displays of parsed hosts and of address values stay in 0x21..0x7E): the
+   session theorem of C15 is about ASCII serializations. *)
+Definition C03_reachability_full_statement2 : Prop :=
+  forall dbg hp hpo hd, HostWf hp hpo hd -> host_nonempty hp hpo -> IpWf hd ->
+  C05_Parser.HostOK hp hpo hd -> C05_Alphabet.IpOKv hd ->
+  forall u, Reachable3 dbg hp hpo hd u ->
+  (wf_b u = true /\ host_text_ok u) /\ base_ok u = true /\ auth_end_ok u /\ PN u.
+
+Theorem C03_known_classes : forall dbg hp hpo hd u o u', HostWf hp hpo hd -> host_nonempty hp hpo -> SessNoSS dbg ->
+  inv03 u -> op_args_ok o -> known_step2 dbg hp hpo hd u o = false ->
+  apply_op dbg hp hpo hd u o = Some u' -> known03k u o u' = false.
+Proof. intros dbg hp hpo hd u o u' HW HNE HSS. exact (known_k dbg hp hpo hd HW HNE HSS u o u'). Qed.
+Check C03_known_classes : forall dbg hp hpo hd u o u', HostWf hp hpo hd -> host_nonempty hp hpo -> SessNoSS dbg ->
+  inv03 u -> op_args_ok o -> known_step2 dbg hp hpo hd u o = false ->
+  apply_op dbg hp hpo hd u o = Some u' -> known03k u o u' = false.
+Print Assumptions C03_known_classes.
+
+Theorem C03_query_pairs_step : forall dbg u ops u', inv03 u -> Forall ok_or_space (ser u) -> Forall C15_Ser.op_ok ops ->
+  QueryPairs.query_pairs_session dbg u ops = Some u' -> inv03 u' /\ Forall ok_or_space (ser u').
+Proof. exact qpm_inv03. Qed.
+Print Assumptions C03_query_pairs_step.
+
+Theorem C03_reachability_full_partial : forall dbg hp hpo hd, HostWf hp hpo hd -> host_nonempty hp hpo -> IpWf hd ->
+  C05_Parser.HostOK hp hpo hd -> C05_Alphabet.IpOKv hd -> SessNoSS dbg ->
+  forall u, Reachable3 dbg hp hpo hd u ->
+  (wf_b u = true /\ host_text_ok u) /\ base_ok u = true /\ auth_end_ok u /\ PN u.
+Proof.
+  intros dbg hp hpo hd HW HNE HIPW HOK HIP HSS u R.
+  destruct (reach3_inv dbg hp hpo hd HW HNE HIPW HOK HIP HSS u R) as [(K & A & P & E) _].
+  split; [exact K|]. split; [exact (as_base_ok u (proj1 K) A)|]. split; [exact (he_auth_end u K E) | exact P].
+Qed.
+Check C03_reachability_full_partial : forall dbg hp hpo hd, HostWf hp hpo hd -> host_nonempty hp hpo -> IpWf hd ->
+  C05_Parser.HostOK hp hpo hd -> C05_Alphabet.IpOKv hd -> SessNoSS dbg ->
+  forall u, Reachable3 dbg hp hpo hd u ->
+  (wf_b u = true /\ host_text_ok u) /\ base_ok u = true /\ auth_end_ok u /\ PN u.
+Print Assumptions C03_reachability_full_partial.
+
+(* a path_segments_mut session (any sequence of clear / pop / pop_if_empty / push / extend with &str arguments) on an
+   authority-less record of a non-special scheme whose path starts with '/' and that carries no "/." marker never
+   yields a path that starts with "//": '/' is appended only behind a path longer than "/", a '/' inside a segment is
+   written %2F, and the dot-segment handling only truncates or appends '/' behind a text not ending in '/' *)
+Theorem C03_sessions_no_2slash : forall dbg, SessNoSS dbg.
+Proof. exact sess_no_ss. Qed.
+Check C03_sessions_no_2slash : forall dbg u ops u', wf_b u = true -> C06_PathNoAuth.noauth_slash_path u ->
+  st_is_special (scheme_type_of (b_scheme u)) = false -> Forall C06_Segments.psm_op_usv ops ->
+  path_segments_session dbg u ops = Some (u', SOk) -> C06_HostNone.path_starts_with_2slash u' = false.
+Print Assumptions C03_sessions_no_2slash.
+
+(* EVERY record of C02's quantifier: the corrected full statement *)
+Theorem C03_reachability_full : C03_reachability_full_statement2.
+Proof.
+  intros dbg hp hpo hd HW HNE HIPW HOK HIP u R.
+  destruct (reach3_inv_all dbg hp hpo hd HW HNE HIPW HOK HIP u R) as [(K & A & P & E) _].
+  split; [exact K|]. split; [exact (as_base_ok u (proj1 K) A)|]. split; [exact (he_auth_end u K E) | exact P].
+Qed.
+Check C03_reachability_full : forall dbg hp hpo hd, HostWf hp hpo hd -> host_nonempty hp hpo -> IpWf hd ->
+  C05_Parser.HostOK hp hpo hd -> C05_Alphabet.IpOKv hd ->
+  forall u, Reachable3 dbg hp hpo hd u ->
+  (wf_b u = true /\ host_text_ok u) /\ base_ok u = true /\ auth_end_ok u /\ PN u.
+Print Assumptions C03_reachability_full.
+
+(* the same with the host MODEL (Model/Host.v; property C09) in place of the abstract host functions: the five
+   hypotheses are met under the only premise IdnaOK idna (what the idna crate's ToASCII must satisfy, C09) *)
+Theorem C03_reachability_full_model : forall dbg idna, C09_Host.IdnaOK idna ->
+  forall u, Reachable3 dbg (Host.host_parse idna) Host.host_parse_opaque Host.host_display u ->
+  (wf_b u = true /\ host_text_ok u) /\ base_ok u = true /\ auth_end_ok u /\ PN u.
+Proof.
+  intros dbg idna OK u R. destruct (reach3_model dbg idna OK u R) as (K & A & P & E).
+  split; [exact K|]. split; [exact (as_base_ok u (proj1 K) A)|]. split; [exact (he_auth_end u K E) | exact P].
+Qed.
+Check C03_reachability_full_model : forall dbg idna, C09_Host.IdnaOK idna ->
+  forall u, Reachable3 dbg (Host.host_parse idna) Host.host_parse_opaque Host.host_display u ->
+  (wf_b u = true /\ host_text_ok u) /\ base_ok u = true /\ auth_end_ok u /\ PN u.
+Print Assumptions C03_reachability_full_model.
+
+(* hence the first two sentences of the property text for every record of Reachable3, in both build configurations *)
+Theorem C03_accessors_reachable : forall dbg dbg' hp hpo hd u, HostWf hp hpo hd -> host_nonempty hp hpo -> IpWf hd ->
+  C05_Parser.HostOK hp hpo hd -> C05_Alphabet.IpOKv hd -> Reachable3 dbg hp hpo hd u ->
+  (exists sch un pw hs pth q f,
+    scheme u = Some sch /\ username dbg' u = Some un /\ password dbg' u = Some pw /\ host_str u = Some hs
+    /\ path u = Some pth /\ query dbg' u = Some q /\ fragment dbg' u = Some f
+    /\ ser u =
+       sch ++ (if has_authority_b u then s_css else [58])
+       ++ un ++ (match pw with Some p => 58 :: p | None => [] end)
+       ++ (if has_authority_b u && negb (username_end u =? host_start u) then [64] else [])
+       ++ piece u (host_start u) (host_end u)
+       ++ (match port u with Some p => 58 :: decimal p | None => [] end)
+       ++ (if negb (has_authority_b u) && (path_start u =? scheme_end u + 3) then [47; 46] else [])
+       ++ pth
+       ++ (match q with Some x => 63 :: x | None => [] end)
+       ++ (match f with Some x => 35 :: x | None => [] end))
+  /\ (forall p, exists i, position_index dbg' u p = Some i /\ i <= nlen (ser u))
+  /\ (forall p q i j, (pos_rank p <= pos_rank q)%nat ->
+        position_index dbg' u p = Some i -> position_index dbg' u q = Some j -> i <= j)
+  /\ (forall p q, (pos_rank p <= pos_rank q)%nat -> exists s, index_range dbg' u p q = Some s)
+  /\ (forall p, exists s t, index_to dbg' u p = Some s /\ index_from dbg' u p = Some t /\ s ++ t = ser u)
+  /\ index_range dbg' u BeforeScheme AfterFragment = Some (ser u).
+Proof.
+  intros dbg dbg' hp hpo hd u HW HNE HIPW HOK HIP R.
+  destruct (C03_reachability_full dbg hp hpo hd HW HNE HIPW HOK HIP u R) as [[W _] _].
+  split; [|split; [|split; [|split; [|split]]]].
+  - destruct (C03_concat dbg' u W) as (sch & un & pw & hs & pth & q & f & A1 & A2 & A3 & A4 & A5 & A6 & A7 & A8 & _).
+    exists sch, un, pw, hs, pth, q, f. repeat split; assumption.
+  - intros p. exact (C03_index dbg' u p W).
+  - intros p q i j. exact (C03_monotone dbg' u p q i j W).
+  - exact (proj1 (C03_slices dbg' u W)).
+  - exact (proj1 (proj2 (C03_slices dbg' u W))).
+  - exact (proj2 (proj2 (proj2 (C03_slices dbg' u W)))).
+Qed.
+Print Assumptions C03_accessors_reachable.
+
+(* non-vacuity: host functions meeting the five hypotheses, and a history of Reachable3: parse "a:/p?x=1",
+   query_pairs_mut().append_pair("k", "v w"), path_segments_mut pop / push "" / push "b/c" (-> a:/b%2Fc?...),
+   set_path "/d", join "e" -> "a:/e" *)
+Example C03_reachability_full_inhabited :
+  (HostWf ex_hp3 ex_hp ex_hd2 /\ host_nonempty ex_hp3 ex_hp /\ IpWf ex_hd2
+   /\ C05_Parser.HostOK ex_hp3 ex_hp ex_hd2 /\ C05_Alphabet.IpOKv ex_hd2)
+  /\ reach3_example_stmt.
+Proof. split; [exact ex3_full_hyps | exact reach3_example]. Qed.
+
+(* what separated C03_reachability from "every reachable Url" in the sense of C02 (first formulation, over
+   C02_Reach.Reachable with HostWf alone; kept as stated):
+   (1) base_ok of a reached base was a premise of reach03a's join          - now an invariant (AS, R4);
+   (2) auth_end_b u was part of excl03 for set_path / quirks set_pathname   - now an invariant (HE, R4);
+   (3) the host half of excl03 is stated on the result, Known_F_C02_4 on the argument - related in R5 under
+       host_nonempty (without it the statement below is false for abstract host functions:
+       C03_reachability_full_statement_refuted);
+   (4) for path_segments_mut sessions on an authority-less record excl03 has path_bad, known_step only the marker:
+       no such session reaches the difference (C03_sessions_no_2slash).
+   The corrected statement is C03_reachability_full_statement2, proved: C03_reachability_full (R5). *)
 Definition C03_reachability_full_statement : Prop :=
   forall dbg hp hpo hd, HostWf hp hpo hd -> forall u, Reachable dbg hp hpo hd u -> wf_b u = true.
+
+(* it is FALSE as stated: HostWf does not exclude a Host::parse that returns the empty host for a non-empty text; with
+   such a function set_host(Some "x") on "http://h:81/" (outside known_step: the argument is not empty) gives
+   "http://:81/".  Not a defect of the crate - url::Host::parse fails with EmptyHost instead (host_nonempty, true of
+   the host model: C02_host_nonempty_model); the statement lacked the hypothesis, which C03_reachability_full has *)
+Theorem C03_reachability_full_statement_refuted : ~ C03_reachability_full_statement.
+Proof.
+  intros H. destruct full_statement_witness as (u & R & Hw).
+  rewrite (H true bad_hp2 ex_hp ex_hd bad_hp2_wf u R) in Hw. discriminate.
+Qed.
+Print Assumptions C03_reachability_full_statement_refuted.
 
 (* non-vacuity: the host hypothesis has an instance; with it, joins of every kind of relative reference are
    outside the file class, meet the premises on the base, and give the expected well-formed records *)
@@ -476,8 +674,8 @@ Check C03_port_step : forall dbg hp hpo hd u o u', HostWf hp hpo hd -> IpDisp hd
 Print Assumptions C03_port_step.
 
 (* for every reached record, RELATIVE to ParsePN dbg hp hpo hd: "every record Parser::parse_url returns (from a
-   base that satisfies PN) satisfies PN" - true by inspection (parse_port normalises against the scheme being
-   parsed, parse_relative copies the port together with the scheme) but NOT proved: the full statement is *)
+   base that satisfies PN) satisfies PN" (parse_port normalises against the scheme being parsed, parse_relative
+   copies the port together with the scheme); the full statement, proved below (C03_port_never_default), is *)
 Definition C03_port_never_default_statement : Prop :=
   forall dbg hp hpo hd, HostWf hp hpo hd -> IpDisp hd -> forall u, reach03a dbg hp hpo hd u -> PN u.
 
@@ -492,6 +690,14 @@ Proof.
   - right. rewrite Hs in Hp. cbn in Hp. inversion Hp. split; reflexivity.
 Qed.
 Print Assumptions C03_port_never_default_partial.
+
+(* ParsePN is now proved in the form the histories need (Proofs/C03_ParseFront.v parse_url_pnr: the base satisfies
+   wf_b, bk and PN - what reach03a's join premise base_ok and the induction give): the full statement *)
+Theorem C03_port_never_default : C03_port_never_default_statement.
+Proof. exact reach03a_pn_all. Qed.
+Check C03_port_never_default : forall dbg hp hpo hd, HostWf hp hpo hd -> IpDisp hd ->
+  forall u, reach03a dbg hp hpo hd u -> PN u.
+Print Assumptions C03_port_never_default.
 
 (* without a hypothesis on the parser: reach03n dbg hp hpo hd (Proofs/C03_PortParse.v) = the part of reach03a whose
    histories start at Url::parse (no base) of a text with a scheme other than "file" (C02's four closed-form
